@@ -94,25 +94,27 @@ static Boolean ChkCPU(CPUVar Min) {
  * ------------------------------------------------------------------------ */
 
 static Boolean DecodeRegCore(char const* pArg, LongWord* pResult) {
-    int     l = strlen(pArg);
-    Boolean OK;
+    int      l = strlen(pArg);
+    Boolean  OK;
+    LargeInt Num;
 
     if ((l >= 2) && (as_toupper(*pArg) == 'R')) {
-        *pResult = ConstLongInt(pArg + 1, &OK, 10);
-        return OK && (*pResult <= 255);
+        Num      = ConstLongInt(pArg + 1, &OK, 10);
+        *pResult = Num;
+        return OK && (Num >= 0) && (Num <= 255);
     } else if ((l >= 3) && (as_toupper(*pArg) == 'G') && (as_toupper(pArg[1]) == 'R')) {
-        *pResult = ConstLongInt(pArg + 2, &OK, 10);
-        if (!OK || (*pResult >= 128)) {
+        Num = ConstLongInt(pArg + 2, &OK, 10);
+        if (!OK || (Num < 0) || (Num >= 128)) {
             return False;
         }
-        *pResult |= REG_LRMARK;
+        *pResult = Num | REG_LRMARK;
         return True;
     } else if ((l >= 3) && (as_toupper(*pArg) == 'L') && (as_toupper(pArg[1]) == 'R')) {
-        *pResult = ConstLongInt(pArg + 2, &OK, 10);
-        if (!OK || (*pResult >= 128)) {
+        Num = ConstLongInt(pArg + 2, &OK, 10);
+        if (!OK || (Num < 0) || (Num >= 128)) {
             return False;
         }
-        *pResult |= 128 | REG_LRMARK;
+        *pResult = Num | 128 | REG_LRMARK;
         return True;
     } else {
         return False;
